@@ -917,7 +917,7 @@ def stdio_sessions(world, jobs, timeout=10.0):
 # ---------------------------------------------------------------- the check
 
 def check_C20(work, args):
-    ck = lv.Check('C20', 'exploration')
+    ck = lv.Check('C20', 'proof')
     quick = ck.tier == 'quick'
     t_build = lv.build_impl(bins=True)
     rng = ck.rng
@@ -933,6 +933,16 @@ def check_C20(work, args):
     import k6_lspmodel
     t0 = time.time()
     pst = checks.proof_step(ck, 'C20')
+    dev_note = None
+    if not pst['build_ok']:
+        # the whole development does not build (some other property's file): C20's obligations are Props/C20.v and
+        # what it depends on (Model/Lsp.v, Proofs/LspPos.v, Proofs/LspProofs.v) - build exactly those
+        dev_note = 'the full Coq development does not build at the moment (%s); built the dependencies of Props/C20.v only' % pst['build_msg'][-300:].strip()
+        with lv.Lock('coq'):
+            r = lv.sh(['timeout', '1200', 'make', 'Model/Lsp.vo', 'Proofs/LspPos.vo', 'Proofs/LspProofs.vo', 'Extract/ExtractLsp.vo'], cwd=lv.COQ, check=False, timeout=1300)
+        if r.returncode == 0:
+            okp, thms, rep = lv.check_props('C20')
+            pst = {'build_ok': True, 'build_msg': '', 'theorems': thms, 'props_ok': okp, 'audit': lv.audit_sources(), 'props_report': '' if okp else rep}
     model_findings, model_cov = [], {}
     try:
         model_bad, model_findings, model_cov = k6_lspmodel.run(ck, work, realistic=list(k6.FRAGMENTS) + list(k6.FIXED_SWEEPS))
@@ -1239,11 +1249,25 @@ def check_C20(work, args):
             'ocaml/lspdriver.ml, harness/src/lsppos.rs + the add-only hook verif_position_to_offset / verif_span_to_range (cfg lelwel_verif), tools/k6_lspmodel.py: trusted for the correspondence only',
             'modelled, not verified: the analysis (parse, semantic pass, hover/lookup/completion/format) as an abstract function of the text; uris as numbers; usize/u32 as nat; '
             'not modelled: analysis threads and channels, JSON-RPC transport, non-file uris'],
-        'model_scope': 'theorems: document store (no crash on conformant histories, every output computed from the latest text, independence, one publication per text notification) '
-                       'and position conversion (bounds, character boundaries, addressed line, totality on boundaries, round trip); the other clauses of C20 are decided by the exploration below',
+        'explanation': 'PROVED in Coq (coq/Props/C20.v over coq/Model/Lsp.v, for every history, text, position, offset and every analysis function; tied to the code by the '
+                       'correspondence tools/k6_lspmodel.py on every run): (1) the document store of lelwel-ls.rs / ide::Cache - no message of a protocol-conformant history crashes the server, '
+                       'every publication and every answer of every history is computed from exactly the latest text of its document (the last contentChanges entry; an empty change is silent), '
+                       'documents are independent, one publication per text-carrying notification; (2) position conversion (compat::position_to_offset / span_to_range over codespan) - the offset '
+                       'of any position is <= the length, a character boundary, inside the addressed line or the document end; every character boundary converts to a position inside the document; '
+                       'other offsets fail; round trip unless a \\r precedes the offset on its line. '
+                       'NOT proved, decided by the EXPLORATION of the real code in this same check (histories in-process and over stdio): the content of the answers - published diagnostics equal '
+                       'to the command-line check, go-to-definition / find-references agreement, hover sets, formatting edits - which is the analysis the model abstracts as a function of the text; '
+                       'the analysis threads and channels (a panic inside an analysis thread, the dead-thread race), the JSON-RPC transport, non-file uris. The equality of the literal codespan '
+                       'transcription with the one-pass functions the theorems speak about is checked on every correspondence case, not proved.',
+        'disagreements_checked': sum(v for k, v in (model_cov.get('counts') or {}).items() if k in ('pos_p2o_pairs', 'pos_o2p_pairs', 'store_messages', 'stdio_messages', 'e2e_hovers_on_identifiers') and isinstance(v, int)),
         'model_correspondence': model_cov, 'model_disagreements': len(model_bad), 'model_findings': model_findings,
     })
     ck.cov['timing_s']['model_proof_and_correspondence'] = round(t_model, 1)
+    if dev_note:
+        ck.cov['development_build_note'] = dev_note
+    ck.cov['rule'] = ('THEOREM part (store, positions): see coverage.explanation; its tie to the code is coverage.model_correspondence (random texts x positions/offsets through the hooks, '
+                      'random conformant and unconstrained histories through ide::Cache and the model, model-paced stdio sessions with 0-3 contentChanges entries, end-to-end hovers). '
+                      'EXPLORATION part (answer contents, threads, transport): ' + ck.cov['rule'])
     ck.assumptions = [
         'the in-process driver (harness/src/lsp.rs) replicates the control flow of src/bin/lelwel-ls.rs per message kind; checked on every run by comparing its answers with the binary over stdio',
         'expected diagnostics are computed from the command-line front end (harness gen/sema) with an independent byte-offset -> line/UTF-16 conversion',
